@@ -59,6 +59,9 @@ type snapshotBatchedIter[S memdbSnapshot] struct {
 	pos       int
 	batchSize int
 	nextKey   []byte
+	// exhausted is set when a reverse iteration has yielded the empty key, below which nothing is left
+	// (an empty nextKey would otherwise be taken for an unbounded upper bound and restart the iteration).
+	exhausted bool
 }
 
 func (s *SnapshotWithMutex[S]) BatchedSnapshotIter(lower, upper []byte, reverse bool) Iterator {
@@ -92,6 +95,12 @@ func (it *snapshotBatchedIter[_]) fillBatch() error {
 	} else {
 		it.keys = it.keys[:0]
 		it.values = it.values[:0]
+	}
+
+	if it.exhausted {
+		it.pos = 0
+		it.nextKey = nil
+		return nil
 	}
 
 	var snapshotIter Iterator
@@ -129,6 +138,9 @@ func (it *snapshotBatchedIter[_]) fillBatch() error {
 		keyLen := len(lastKey)
 
 		if it.reverse {
+			if keyLen == 0 {
+				it.exhausted = true
+			}
 			if cap(it.nextKey) >= keyLen {
 				it.nextKey = it.nextKey[:keyLen]
 			} else {
